@@ -238,4 +238,20 @@ theorem canon_runs (s frm to : List Ch) :
     rw [hloop]
     simp [replaceAll]
 
+theorem canon2_runs (s frm to : List Ch) :
+    runBody canonReplaceAll2 s frm to = some (replaceAll s frm to) := by
+  cases frm with
+  | nil =>
+    simp [runBody, canonReplaceAll2, RStm.exec, RExp.eval, RSt.str, b2n, replaceAll]
+  | cons c p =>
+    have hne : c :: p ≠ [] := by simp
+    have hloop := loop_inv (c :: p) to hne (s.length + 1) (s.length + 1) [] s (by omega)
+    simp only [List.nil_append, List.length_nil] at hloop
+    simp only [runBody, canonReplaceAll2, RStm.exec, RExp.eval, RSt.str, b2n, List.isEmpty_cons,
+      Bool.false_eq_true, if_false, RSt.setV]
+    simp only [show ((some 0 : Option Nat) == some 0) = true from rfl, if_true,
+      show setNth [] 0 (some 0) = [some 0] from rfl]
+    rw [hloop]
+    simp [replaceAll]
+
 end Vita.C19
